@@ -212,6 +212,17 @@ def replay_layers(beh):
                     return (i, pp[0], pp[1], pp[2], pp[3] + ' (after %s)' % a['op'])
             if beh['viewer'] == 'image' and any(k[1] == 0 for k in la):
                 s = w.viewer.state
+                if s.reference_data is None or w.name_of(s.reference_data) not in [k[0] for k in la]:
+                    return (i, 'image_reference', 'a dataset with a layer in the viewer', str(s.reference_data), 'after %s' % a['op'])
+                for name in ('x_att_world', 'y_att_world'):
+                    ch = [c for c in getattr(type(s), name).get_choices(s) if not _is_separator(c)]
+                    if len(ch) != s.reference_data.ndim or any(c.parent is not s.reference_data for c in ch):
+                        return (i, 'image_axis_choices[%s]' % name, 'the %d axes of %s' % (s.reference_data.ndim, s.reference_data.label),
+                                [str(c) for c in ch], 'after %s' % a['op'])
+                    if getattr(s, name) is None:
+                        return (i, 'image_axis_selection[%s]' % name, 'one of the axes', None, 'after %s' % a['op'])
+                if s.x_att_world is s.y_att_world:
+                    return (i, 'image_axes_world', 'two distinct axes', '%s / %s' % (s.x_att_world, s.y_att_world), 'after %s' % a['op'])
                 if s.x_att is s.y_att or s.x_att not in s.reference_data.pixel_component_ids or s.y_att not in s.reference_data.pixel_component_ids:
                     return (i, 'image_axes', 'two distinct pixel axes of the reference data', '%s / %s' % (s.x_att, s.y_att), None)
     finally:
